@@ -16,7 +16,7 @@ func main() {
 	r := drv.NewRand(cfg.Seed)
 	w := emit.NewWriter(cfg.Out, "C07_spec", 0, cfg.Only)
 	n := cfg.Count(240, 4000)
-	p := c04_hist.Profile{MaxOps: 14, MaxFlows: 2, MaxRefresh: 4, OfflinePct: 92, CodeAttacks: 10, RefreshOff: 12, RefreshAtk: 45, FlowMutation: 8, FaultPct: 6, DropPct: 22, HintPct: 6, ROPct: 8, KeepPct: 35, TwinPct: 4, OmitPct: 25, OtherAuthPct: 25, LoudPct: 50, RevokePct: 35, OddScopePct: 25, ReplacePct: 45, WarmPct: 15, OverlapPct: 25, AudPct: 40, PostPct: 10, ZeroAuthPct: 20, GrantsPct: 20}
+	p := c04_hist.Profile{MaxOps: 14, MaxFlows: 2, MaxRefresh: 4, OfflinePct: 92, CodeAttacks: 10, RefreshOff: 12, RefreshAtk: 45, FlowMutation: 8, FaultPct: 6, DropPct: 22, HintPct: 6, ROPct: 8, KeepPct: 35, TwinPct: 4, OmitPct: 25, OtherAuthPct: 25, LoudPct: 50, RevokePct: 35, OddScopePct: 25, ReplacePct: 45, WarmPct: 15, OverlapPct: 25, AudPct: 40, PostPct: 10, ZeroAuthPct: 20, GrantsPct: 20, StrayPct: 40, WirePct: 40, RotFaultPct: 30}
 	if !cfg.Quick {
 		p.MaxOps, p.MaxFlows, p.MaxRefresh = 40, 3, 8
 	}
@@ -29,7 +29,7 @@ func main() {
 		w.Add(h.Case())
 	}
 	err := w.Close(emit.Meta{Property: "C07", Tier: cfg.Tier, Seed: cfg.Seed,
-		Rule: "one case = one history over a fresh provider: 1..N code flows (mostly with offline_access) followed by refresh chains (no scope / same / subset) with mutations (other client's credentials, wrong secret, bad assertion, superset / disjoint / duplicate scopes, rotated / foreign / unknown / missing refresh token), a quarter of the honest refreshes followed AT ONCE on the same router by the same request with credentials / client_id / secret / assertion / refresh_token omitted; storage policy rotate (65%) or keep-same (35%: CreateAccessAndRefreshTokens returns the presented token); refresh support off in ~12%, a client without the refresh grant in ~16%; all-Provider, all-Legacy or mixed per operation. Non-trivial = the model's history contains a token response or a refusal beyond the first guards (path class != 0); distinct = distinct (input hash, path class).",
+		Rule: "one case = one history over a fresh provider: 1..N code flows (mostly with offline_access) followed by refresh chains (no scope / same / subset) with mutations (other client's credentials, wrong secret, bad assertion, superset / disjoint / duplicate scopes, rotated / foreign / unknown / missing refresh token), a quarter of the honest refreshes followed AT ONCE on the same router by the same request with credentials / client_id / secret / assertion / refresh_token omitted; a refresh by the owner with weak / honest / foreign credentials PLUS parameters the grant does not define (code_verifier, code, redirect_uri, username ...; body or query string) in ~40% of the flows and on 1/12 of all token requests; the Basic header form-encoded ('+' or %20 for a space, upper / lower-case hex), unencoded or encoded twice (id and secret independently; the case carries the header texts, Coq decodes them) for clients whose id / secret need escaping (~25% of the flows) and all others; a refresh during which the storage refuses the rotation (CreateAccessAndRefreshTokens fails; honest, or refused anyway) followed by the owner's retry in ~30% of the flows; storage policy rotate (65%) or keep-same (35%: CreateAccessAndRefreshTokens returns the presented token); refresh support off in ~12%, a client without the refresh grant in ~16%; all-Provider, all-Legacy or mixed per operation. Non-trivial = the model's history contains a token response or a refusal beyond the first guards (path class != 0); distinct = distinct (input hash, path class).",
 	})
 	if err != nil {
 		fmt.Fprintln(os.Stderr, err)
